@@ -43,3 +43,8 @@ Definition rec_sweeps_step (salt : Z) (acc : Z * list Z * list Z) (_ : nat) : Z 
 (* k consecutive steps; output = for each step: every call as index :: given, then the new state *)
 Definition rec_sweeps (salt : Z) (k : nat) (st : list Z) : list Z :=
   snd (fold_left (rec_sweeps_step salt) (seq 0 k) (0%Z, st, [])).
+
+(* the same, continuing with the conditional's call counter at cnt (a chain whose public state was replaced,
+   possibly by a vector of another length, between two steps: the sweep ranges over the CURRENT state) *)
+Definition rec_sweeps_from (salt cnt : Z) (k : nat) (st : list Z) : list Z :=
+  snd (fold_left (rec_sweeps_step salt) (seq 0 k) (cnt, st, [])).
